@@ -382,3 +382,10 @@ def check(cx):
         cx.advisory(r6, "armed", "", "record_write has callers %s: validation can now fail after the COMMIT append" % rw)
     else:
         cx.advisory(r6, "dormant", "", "record_write has no production caller, validation cannot fail (D4)")
+
+    # ---- C02.8 (construct shared with C08.1) ---------------------------------------------------------------------
+    from . import c08
+    cx.include(c08, {"C08.1"}, "C02.8", "shared with C08.1: recovery commits and then discards the log by a checkpoint; a log that "
+               "survives recovery is analysed again after the next crash, and because transaction ids handed out since the last "
+               "checkpoint are handed out again, a new committed transaction then lends its COMMIT to an old loser's operations",
+               floor=5)
